@@ -1,6 +1,7 @@
 """Shared pipeline of the MiniPy family: program batches -> TLC exploration -> executions -> model validation."""
 import os
 import json
+import time
 import multiprocessing
 
 from . import common, tlc, minipy as mp
@@ -24,6 +25,7 @@ def random_programs(n, seed, **kw):
 
 
 BATCH = 6000      # programs per TLC run (bounds the memory and the duration of a single run)
+PARALLEL = 1      # TLC instances run side by side on slices of a batch (measured: no gain over one 16-worker instance)
 
 
 def explore(progs, module='MiniPy', spec='Spec', invariants=('Emit',), env=None, bounds=None, name=None,
@@ -32,32 +34,43 @@ def explore(progs, module='MiniPy', spec='Spec', invariants=('Emit',), env=None,
 
     claims: per-program claim records for the monitors (written next to each batch as CLAIM_FILE)."""
     wd = workdir or common.scratch('mp_%s_%d' % (name or module, os.getpid()))
-    total = None
-    for lo in range(0, max(len(progs), 1), BATCH):
-        part = progs[lo:lo + BATCH]
-        pf = os.path.join(wd, 'progs.json')
+    # TLC scales poorly beyond a few workers on this specification (initial states and the JSON tables are handled by
+    # one thread): several TLC instances on slices of the batch use the cores better than one instance with 16 workers
+    n = len(progs)
+    par = PARALLEL if (n >= 200 and workers >= 8) else 1
+    nsl = max(par, -(-n // BATCH))
+    # interleaved slices: the program families differ a lot in cost, contiguous slices would be unbalanced
+    slices = [list(range(k, n, nsl)) for k in range(nsl)] if n else [[]]
+
+    def one(k):
+        idx = slices[k]
+        pf = os.path.join(wd, 'progs_%d.json' % k)
         with open(pf, 'w') as f:
-            json.dump(part, f)
+            json.dump([progs[i] for i in idx], f)
         e = dict(PROG_FILE=pf)
         e.update(env or {})
         if claims is not None:
-            cf = os.path.join(wd, 'claims.json')
+            cf = os.path.join(wd, 'claims_%d.json' % k)
             with open(cf, 'w') as f:
-                json.dump(claims[lo:lo + BATCH], f)
+                json.dump([claims[i] for i in idx], f)
             e['CLAIM_FILE'] = cf
-        res = tlc.run_tlc(module, cfg_text(spec, invariants, bounds), env=e, workers=workers, timeout=timeout,
-                          name=name or module)
+        res = tlc.run_tlc(module, cfg_text(spec, invariants, bounds), env=e, workers=max(2, workers // par), timeout=timeout,
+                          name='%s_%d' % (name or module, k))
         res.require_ok(module)
         for r in res.json:
             if isinstance(r, dict) and 'pid' in r:
-                r['pid'] += lo
-        if total is None:
-            total = res
-        else:
-            total.generated += res.generated
-            total.distinct += res.distinct
-            total.json.extend(res.json)
-            total.wall_s += res.wall_s
+                r['pid'] = idx[r['pid'] - 1] + 1
+        return res
+    from concurrent.futures import ThreadPoolExecutor
+    t0 = time.time()
+    with ThreadPoolExecutor(par) as ex:
+        results = list(ex.map(one, range(len(slices))))
+    total = results[0]
+    for res in results[1:]:
+        total.generated += res.generated
+        total.distinct += res.distinct
+        total.json.extend(res.json)
+    total.wall_s = round(time.time() - t0, 2)
     return total, wd
 
 
